@@ -187,15 +187,32 @@ def print_assumptions(modname, thms):
 
 
 def coqchk(modname, timeout=3000):
-    """thorough tier: re-check the compiled property file and everything it depends on with the independent
-    checker and list the axioms of the whole context (coqchk -o)"""
-    rc, out = sh(["coqchk", "-silent", "-o", "-Q", "theories", "BMC", "-Q", "gen", "BMCGen", "-Q", "props", "BMCProps",
-                  "BMCProps." + modname], cwd=COQ, timeout=timeout)
-    axioms = []
-    m = re.search(r"\* Axioms:\s*(.*?)(?:\n\s*\n|\n\* |\Z)", out, flags=re.S)
-    if m:
-        axioms = [a.strip() for a in m.group(1).split("\n") if a.strip() and a.strip() != "<none>"]
-    return rc == 0, axioms, out
+    """thorough tier: re-check every compiled property file and everything they depend on with the independent
+    checker and list the axioms of the whole context (coqchk -o).  One run per tree: the result is cached under
+    the digest of all compiled files, so the twenty thorough checks of one tree share it."""
+    import glob
+    vos = sorted(glob.glob(os.path.join(COQ, "*", "*.vo")))
+    h = hashlib.sha1()
+    for v in vos:
+        h.update(v.encode()); h.update(hashlib.sha1(open(v, "rb").read()).digest())
+    key = h.hexdigest()
+    cache = os.path.join(COQ, ".coqchk_cache.json")
+    with Lock(os.path.join(COQ, ".coqchk.lock")):
+        try:
+            c = json.load(open(cache))
+            if c.get("key") == key:
+                return c["ok"], c["axioms"], c["out"]
+        except (OSError, ValueError, KeyError):
+            pass
+        mods = ["BMCProps." + os.path.basename(v)[:-3] for v in vos if os.path.basename(os.path.dirname(v)) == "props"]
+        rc, out = sh(["coqchk", "-silent", "-o", "-Q", "theories", "BMC", "-Q", "gen", "BMCGen", "-Q", "props", "BMCProps"] + mods,
+                     cwd=COQ, timeout=timeout)
+        axioms = []
+        m = re.search(r"\* Axioms:\s*(.*?)(?:\n\s*\n|\n\* |\Z)", out, flags=re.S)
+        if m:
+            axioms = [a.strip() for a in m.group(1).split("\n") if a.strip() and a.strip() != "<none>"]
+        json.dump({"key": key, "ok": rc == 0, "axioms": axioms, "out": out[-4000:]}, open(cache, "w"))
+        return rc == 0, axioms, out
 
 
 def run_lines(binary, lines, timeout=3600, cwd=None):
@@ -435,9 +452,9 @@ def proof_status(ch, modname, build):
                 if okc is None:
                     proof["trusted_base"].append("coqchk: timed out (not counted as a failure; the kernel's own check stands)")
                 elif okc:
-                    proof["trusted_base"].append("coqchk -o on BMCProps.%s and all its dependencies: accepted; axioms in the whole context: %s"
+                    proof["trusted_base"].append("coqchk -silent -o on every property file (incl. BMCProps.%s) and all their dependencies: accepted; axioms in the whole context: %s"
                                                  % (modname, ", ".join(ax) or "none"))
-                    proof["checker_cmd"] += " ; coqchk -silent -o BMCProps.%s" % modname
+                    proof["checker_cmd"] += " ; coqchk -silent -o BMCProps.C01 .. BMCProps.C20 (once per tree)"
                 else:
                     proof["discharged"] = 0
                     proof["failed"] = thms
